@@ -19,6 +19,7 @@ import (
 	"sync"
 
 	jp "github.com/buger/jsonparser"
+	"github.com/siglens/siglens/cmd/startup"
 	"github.com/siglens/siglens/pkg/config"
 	"github.com/siglens/siglens/pkg/segment/memory/limit"
 	"github.com/siglens/siglens/pkg/segment/reader/metrics/series"
@@ -43,6 +44,16 @@ func metricsInit(dir string) {
 	if err := meta.InitMetricsMeta(); err != nil {
 		os.Exit(3)
 	}
+}
+
+// The restart.  The three recovery functions are NOT called from here: the worker runs the real start-up function of an
+// ingest node, startIngestServer (cmd/startup/startup.go, through the add-only hook hooks/C10_startup.go), in safe mode
+// (the listener goroutine then only serves /health on an ephemeral port).  The order of RecoverWALData,
+// RecoverMNameWALData and RecoverMEntryWALData - which depend on each other's side effects: the segment directory that
+// FlushMetricNames needs is created by flushBlock - is therefore the order the start-up code uses.
+func startupRecovery() {
+	config.GetRunningConfig().SafeServerStart = true
+	startup.VerifStartIngestServer("127.0.0.1:0")
 }
 
 // what the worker reports about the appends it completed (written OUTSIDE the traced directory)
@@ -70,6 +81,10 @@ func handoffWorker(args []string) {
 		if mx > 0 {
 			sutils.MAX_WAL_FILE_SIZE_BYTES = uint64(mx)
 		}
+	}
+	earlier := 0 // datapoints ingested before an ordinary (size-triggered) block rotation: the segment directory then exists
+	if len(args) > 8 {
+		fmt.Sscanf(args[8], "%d", &earlier)
 	}
 	sutils.WAL_BLOCK_FLUSH_SIZE = fs
 	metricsInit(dir)
@@ -110,6 +125,18 @@ func handoffWorker(args []string) {
 		os.Exit(7)
 	}
 	for i := 0; i < n; i++ {
+		if earlier > 0 && i == earlier {
+			// the block is "full": timeBasedRotate's body, CheckAndRotate(false) -> rotateBlock (flushBlock creates the
+			// segment directory, the datapoint log of block 0 is deleted, block 1 starts); the segment stays open
+			mx := sutils.MAX_BYTES_METRICS_BLOCK
+			sutils.MAX_BYTES_METRICS_BLOCK = 1
+			for _, ms := range metrics.GetAllMetricsSegments() {
+				if err := ms.CheckAndRotate(false); err != nil {
+					os.Exit(6)
+				}
+			}
+			sutils.MAX_BYTES_METRICS_BLOCK = mx
+		}
 		th := metrics.GetTagsHolder()
 		th.Insert("host", []byte("h1"), jp.String)
 		if err := metrics.EncodeDatapoint([]byte(names[i%len(names)]), th, float64(i), uint32(1700000000+i), 40, 0); err != nil {
@@ -148,20 +175,23 @@ type hoRecovered struct {
 	Mnm       []hoSeg             `json:"mnm"`        // every <segment>.mnm file: the metric names of the segment
 	MetaLines int                 `json:"meta_lines"` // lines of metricmeta.json
 	Points    map[string][]uint32 `json:"points"`     // metric name -> timestamps found in the block files of all segments
+	Blocks    map[string][]uint32 `json:"blocks"`     // "<shard>/<block number>" -> timestamps found in the files of that block
 	Listed    map[string][]uint32 `json:"listed"`     // ... of the segments listed in metricmeta.json only
 	BadVal    int                 `json:"bad_values"`
 	Errs      []string            `json:"errs,omitempty"`
 }
 
-// handoffrecover <dir> <out.json> <names,comma>
+// handoffrecover <dir> <out.json> <names,comma> [restart|observe]
+// restart: the real start-up of an ingest node, then the store is read back; observe: the store is only read back (the
+// state a restart would find)
 func handoffRecover(args []string) {
 	dir, of := args[0], args[1]
 	names := strings.Split(args[2], ",")
 	metricsInit(dir)
-	metrics.RecoverWALData()
-	metrics.RecoverMNameWALData()
-	metrics.RecoverMEntryWALData()
-	out := hoRecovered{Points: map[string][]uint32{}, Listed: map[string][]uint32{}}
+	if len(args) < 4 || args[3] != "observe" {
+		startupRecovery()
+	}
+	out := hoRecovered{Points: map[string][]uint32{}, Listed: map[string][]uint32{}, Blocks: map[string][]uint32{}}
 	ents, err := meta.GetLocalMetricsMetaEntries()
 	if err != nil {
 		out.Errs = append(out.Errs, "metricmeta.json: "+err.Error())
@@ -256,6 +286,8 @@ func handoffRecover(args []string) {
 					out.BadVal++
 				}
 				out.Points[nm] = append(out.Points[nm], t)
+				bk := fmt.Sprintf("%s/%d", shardOfFinal(segKey), blk)
+				out.Blocks[bk] = append(out.Blocks[bk], t)
 				if listed[segKey] {
 					out.Listed[nm] = append(out.Listed[nm], t)
 				}
@@ -274,6 +306,7 @@ type hoScenario struct {
 	Mx      int    `json:"max_wal_file_bytes"` // 0 = default (one WAL file per block)
 	Pick    string `json:"metric_names"`       // 1 = one name; d2/d3 = names on 2/3 different shards; s2 = two names on one shard
 	FlushDp bool   `json:"dp_timer_flush_before_shutdown"`
+	Earlier int    `json:"datapoints_before_an_ordinary_block_rotation"` // 0 = the segment is still in its first block (no directory) when it crashes
 }
 
 func copyTree(src, dst string) error {
@@ -314,6 +347,24 @@ func walHandoffCrash(cfg vhlib.Config, sum *vhlib.Summary, r *vhlib.Rng) {
 	}
 	for si, sc := range scb {
 		runHandoff(cfg, sum, self, fmt.Sprintf("b%d", si), sc, false)
+	}
+	// stream C: what a restart finds of a segment in its FIRST block (no segment directory) and of one that has rotated
+	// a block before (directory exists), with the logs flushed in either order: the three recovery functions cooperate
+	// through that directory, so the ORDER in which start-up calls them matters exactly in the first kind of state
+	scc := []hoScenario{
+		{N: 3, Fs: 5, Pick: "1", FlushDp: false},             // the name log is flushed, no datapoint append completes before the shutdown
+		{N: 14, Fs: 4, Pick: "1", FlushDp: true, Earlier: 6}, // block 0 rotated by size, crash states of block 1
+	}
+	if cfg.Thorough() {
+		scc = append(scc, hoScenario{N: 4, Fs: 9, Pick: "d2", FlushDp: false},
+			hoScenario{N: 30, Fs: 4, Pick: "d2", FlushDp: r.Bool(), Earlier: 10},
+			hoScenario{N: r.Range(8, 40), Fs: vhlib.Pick(r, []int{3, 50}), Pick: "s2", FlushDp: r.Bool(), Earlier: r.Range(1, 7)})
+	}
+	for si, sc := range scc {
+		// phase 2 (the traced recovery against recovery_ops_store_first) needs a state in which all three logs hold
+		// something at the mark (not the names-only scenarios) and data in one shard (the recovery functions walk the
+		// shards in map order)
+		runHandoff(cfg, sum, self, fmt.Sprintf("c%d", si), sc, sc.Earlier > 0 && !strings.HasPrefix(sc.Pick, "d"))
 	}
 }
 
@@ -434,6 +485,8 @@ type hoRun struct {
 	everNm   map[string]map[string]bool
 	everMeta map[string]uint64 // shard -> datapoint count of the logged entry (segments with data only)
 	metaHead string            // shard of the first entry in the meta-entry log (the first to be replayed)
+	nameIDs  map[string]uint64 // metric name -> number used in the Coq case files
+	rcases   []string          // (state before the restart, state after it) per crash point and shard (WalRestart.v)
 }
 
 func (h *hoRun) apply(o vhlib.FsOp) error {
@@ -580,18 +633,44 @@ func (h *hoRun) restart(phase, where string, ccs map[string]interface{}, metaDro
 		return nil, false
 	}
 	torn := h.tornMeta()
-	of := filepath.Join(h.base, "recovered.json")
-	_ = os.Remove(of)
-	rc := exec.Command(h.self, "handoffrecover", h.dir, of, strings.Join(names, ","))
-	if out, err := rc.CombinedOutput(); err != nil {
-		sum.Fail("wal_recovery_process_failed", fmt.Sprintf("restart, %s: %v %s", where, err, string(out)), ccs)
+	// the state the restart finds (block files, .mnm, metricmeta.json through the real readers in a fresh process)
+	preRec, err := h.runRecover("observe")
+	if err != nil {
+		sum.HarnessError(fmt.Sprintf("hand-off observe, %s: %v", where, err))
 		return nil, false
 	}
-	var rec hoRecovered
-	ob, _ := os.ReadFile(of)
-	if err := json.Unmarshal(ob, &rec); err != nil {
-		sum.HarnessError("hand-off recovered.json: " + err.Error())
+	preSt := map[string]segObs{}
+	for _, sh := range h.shards {
+		preSt[sh] = h.observeSeg(h.pristine, preRec, sh)
+	}
+	_ = os.RemoveAll(h.dir)
+	if err := copyTree(h.pristine, h.dir); err != nil {
+		sum.HarnessError("hand-off copy: " + err.Error())
 		return nil, false
+	}
+	// the restart: startIngestServer in a fresh process
+	recp, err := h.runRecover("restart")
+	if err != nil {
+		sum.Fail("wal_recovery_process_failed", fmt.Sprintf("restart, %s: %v", where, err), ccs)
+		return nil, false
+	}
+	rec := *recp
+	postSt := map[string]segObs{}
+	for _, sh := range h.shards {
+		postSt[sh] = h.observeSeg(h.dir, recp, sh)
+		switch {
+		case torn:
+			sum.Count("restart_model/not_compared/metricmeta_line_torn")
+		case preSt[sh].DpBlks > 1:
+			sum.Count("restart_model/not_compared/datapoint_logs_of_two_blocks")
+		default:
+			h.rcases = append(h.rcases, fmt.Sprintf("(%s,\n   %s)", h.coqSeg(preSt[sh]), h.coqSeg(postSt[sh])))
+			st := "segment_directory_exists"
+			if !preSt[sh].Dir {
+				st = "first_block_no_segment_directory"
+			}
+			sum.Count(fmt.Sprintf("restart_model/state/%s/dp_log=%v/name_log=%v", st, len(preSt[sh].DpLog) > 0, len(preSt[sh].NmLog) > 0))
+		}
 	}
 	pre := "forced_rotation_crash"
 	if phase == "recovery" {
@@ -651,11 +730,50 @@ func (h *hoRun) restart(phase, where string, ccs map[string]interface{}, metaDro
 		}
 		present["KName/"+sh] = missing == 0
 		if missing > 0 {
-			why := "RecoverMNameWALData"
-			if phase == "recovery" {
-				why = "RecoverMNameWALData deletes the name WAL file after reading it and writes <segment>.mnm (FlushMetricNames) afterwards"
+			var want []string
+			for n := range h.everNm[sh] {
+				want = append(want, n)
 			}
-			sum.Fail(pre+"_loses_logged_metric_names", fmt.Sprintf("%s: %d of the %d metric names of shard %s whose WAL append had completed are in no .mnm file and in no WAL after the restart (%s)", where, missing, len(h.everNm[sh]), sh, why), ccs)
+			var haveL []string
+			for n := range have {
+				haveL = append(haveL, n)
+			}
+			miss := namesMissing(want, haveL)
+			if len(namesMissing(miss, postSt[sh].NmLog)) == 0 {
+				// ONE restart must replay them (property text); they are still in the name log: does a second restart store them?
+				second := "a second restart could not be run"
+				if rec2, err := h.runRecover("restart"); err == nil {
+					var have2 []string
+					for _, s := range rec2.Mnm {
+						if shardOfFinal(s.Dir+"/x") == sh {
+							have2 = append(have2, s.Names...)
+						}
+					}
+					if m2 := namesMissing(miss, have2); len(m2) == 0 {
+						second = "a SECOND restart stores them"
+					} else {
+						second = fmt.Sprintf("a second restart does not store them either (%v)", m2)
+					}
+				}
+				p := preSt[sh]
+				cls := pre + "_leaves_logged_metric_names_in_the_log"
+				why := "RecoverMNameWALData kept the name log"
+				switch {
+				case !p.Dir && len(p.DpLog) > 0:
+					cls = "restart_replays_datapoints_of_first_block_segment_without_its_metric_names"
+					why = fmt.Sprintf("the crashed segment was still in its FIRST block: its directory %s did not exist when the restart began; the %d logged datapoints were replayed (flushBlock creates the directory) but FlushMetricNames, which does not create it, ran when it did not exist yet: the recovery functions were not called in the order datapoints, then names", filepath.Dir(h.dirOf[sh]), len(p.DpLog))
+				case !p.Dir:
+					cls = "restart_keeps_metric_names_of_segment_without_directory_in_log"
+					why = fmt.Sprintf("the crashed segment was still in its first block and no datapoint append had completed: nothing creates the directory %s and FlushMetricNames (O_CREATE, no MkdirAll) fails with ENOENT", filepath.Dir(h.dirOf[sh]))
+				}
+				sum.Fail(cls, fmt.Sprintf("%s: metric names %v of shard %s, whose WAL append had completed, are in no .mnm file after the restart; they are still in the name log; %s (%s)", where, miss, sh, second, why), ccs)
+			} else {
+				why := "RecoverMNameWALData"
+				if phase == "recovery" {
+					why = "RecoverMNameWALData deletes the name WAL file after reading it and writes <segment>.mnm (FlushMetricNames) afterwards"
+				}
+				sum.Fail(pre+"_loses_logged_metric_names", fmt.Sprintf("%s: %d of the %d metric names of shard %s whose WAL append had completed are in no .mnm file and in no WAL after the restart (%s)", where, missing, len(h.everNm[sh]), sh, why), ccs)
+			}
 		}
 		inMeta := false
 		for _, s := range rec.Meta {
@@ -706,7 +824,19 @@ func (h *hoRun) restart(phase, where string, ccs map[string]interface{}, metaDro
 		}
 	}
 	if len(rec.Errs) > 0 && !anyDpLost {
-		sum.Fail("wal_recovered_block_unreadable", fmt.Sprintf("%s: %v", where, rec.Errs), ccs)
+		rebuilt := false // did the restart have a datapoint log to rebuild a block from
+		for _, sh := range h.shards {
+			if len(preSt[sh].DpLog) > 0 {
+				rebuilt = true
+			}
+		}
+		if rebuilt {
+			sum.Fail("wal_recovered_block_unreadable", fmt.Sprintf("%s: %v", where, rec.Errs), ccs)
+		} else {
+			// a block file torn by the crash whose datapoints were never logged (no append had completed): nothing to
+			// replay, not a statement of C10
+			sum.Count("handoff/torn_block_file_of_never_logged_datapoints")
+		}
 	}
 	return present, torn
 }
@@ -735,7 +865,7 @@ func runHandoff(cfg vhlib.Config, sum *vhlib.Summary, self string, id string, sc
 		fd = "1"
 	}
 	cmd := exec.Command("strace", "-f", "-y", "-xx", "-s", "200000", "-o", tracef, "-e", hoTraceSet,
-		self, "handoffworker", dir, info, fmt.Sprint(sc.N), fmt.Sprint(sc.Fs), sc.Pick, fd, "real", fmt.Sprint(sc.Mx))
+		self, "handoffworker", dir, info, fmt.Sprint(sc.N), fmt.Sprint(sc.Fs), sc.Pick, fd, "real", fmt.Sprint(sc.Mx), fmt.Sprint(sc.Earlier))
 	if out, err := cmd.CombinedOutput(); err != nil {
 		sum.HarnessError(fmt.Sprintf("traced hand-off worker: %v %s", err, string(out)))
 		return
@@ -872,8 +1002,10 @@ func runHandoff(cfg vhlib.Config, sum *vhlib.Summary, self string, id string, sc
 	sum.Count(fmt.Sprintf("handoff/shards_with_data=%d", len(h.shards)))
 	sum.Sample(map[string]interface{}{"part": "forced rotation hand-off", "scenario": sc, "calls": len(ops), "crash_points": ncrash, "milestones": ml, "shards_with_data": h.shards})
 	if !withRecovery {
+		h.writeRestartCases(cfg)
 		return
 	}
+	defer h.writeRestartCases(cfg)
 	// ---- phase 2: the start-up recovery itself is traced on the state at the rotation mark; every prefix of ITS calls,
 	// then a second restart ----
 	_ = os.RemoveAll(dir)
@@ -950,6 +1082,21 @@ func runHandoff(cfg vhlib.Config, sum *vhlib.Summary, self string, id string, sc
 	sum.Sample(map[string]interface{}{"part": "start-up recovery hand-off", "scenario": sc, "calls": len(rops), "crash_points": nrec, "milestones": rml})
 }
 
+// WalRestart.v: the model's restart in the start-up order of the code must turn every observed state before the
+// restart into the observed state after it (true = FlushMetricNames creates the segment directory itself, fix 5e1901f)
+func (h *hoRun) writeRestartCases(cfg vhlib.Config) {
+	const per = 150
+	for i, n := 0, 0; i < len(h.rcases); i, n = i+per, n+1 {
+		j := i + per
+		if j > len(h.rcases) {
+			j = len(h.rcases)
+		}
+		defs := "Definition cases : list (seg * seg) := " + vhlib.CoqListNL(h.rcases[i:j]) + ".\n"
+		h.sum.WriteCaseFile(cfg.Out, fmt.Sprintf("cases_restart_%s_%d", h.id, n), "From SigM Require Import Base WalRestart.\n", defs, "check_restart true cases", j-i)
+	}
+	h.rcases = nil
+}
+
 func hoDescribe(ops []vhlib.FsOp, k int, dir string) string {
 	if k == 0 {
 		return "nothing done"
@@ -980,8 +1127,6 @@ func readMetaDirs(path string) (res []*structs.MetricsMeta) {
 // handoffrecoveronly <dir>: the three start-up recovery functions and nothing else (traced)
 func handoffRecoverOnly(args []string) {
 	metricsInit(args[0])
-	metrics.RecoverWALData()
-	metrics.RecoverMNameWALData()
-	metrics.RecoverMEntryWALData()
+	startupRecovery()
 	os.Exit(0)
 }
